@@ -40,7 +40,6 @@ from exabgp.protocol.ip.tcp.flag import TCPFlag
 from exabgp.protocol.ip.fragment import Fragment
 from exabgp.protocol.resource import NumericValue
 from exabgp.bgp.message.update.attribute.community.extended import traffic as tr
-import exabgp.configuration.flow.parser as fp
 
 ID = 'C16'
 LEVEL = 'model_checking'
@@ -89,8 +88,16 @@ class _Log:
         return lambda *a, **k: None
 
 
-fp.log = _Log()
-fp.lazymsg = lambda *a, **k: None
+
+
+def flow_route_parser():
+    """The real text entry point (configuration / API 'flow route ...'): imported on first use, its logger silenced."""
+    import exabgp.configuration.flow.parser as fp
+    from exabgp.configuration.core.parser import Tokeniser
+    from exabgp.configuration.flow import route
+    fp.log = _Log()
+    fp.lazymsg = lambda *a, **k: None
+    return Tokeniser, route
 
 
 def B(ctx, x):
@@ -130,12 +137,16 @@ def shape(comps):
 # ----------------------------------------------------------------------------- decode units
 
 
-def h_decode(ctx, afi, vpn, L, exact=False, min_len=0):
+def h_decode(ctx, afi, vpn, L, exact=False, min_len=0, first_type=None, first_width8=False):
     data = ctx.bytes('n', L)
+    if first_width8:
+        ctx.assume((data[2] // 16) % 4 == 3, 'decode/v4/port-w8: the first operator announces an 8 octet value')
+    if first_type is not None:
+        ctx.assume(data[1] == first_type, 'decode/*/port-L7, label-L7: the first component is of the named type (all types: free-L*/exact-L* units)')
     if exact:
         ctx.assume(data[0] == L - 1, 'decode/*/exact-L*: the length octet says exactly the L-1 octets that follow (other lengths: free-L* units)')
     elif min_len:
-        ctx.assume(data[0] >= min_len, 'decode/vpn*/rd-L*: NLRI length >= 8 (shorter ones are covered by decode/vpn*/short)')
+        ctx.assume(s_and(data[0] >= min_len, data[0] < 240), 'decode/vpn*/rd-L*: one-octet NLRI length >= 8 (shorter ones and the two-octet form are covered by decode/vpn*/short and decode/big)')
     return decode_obligations(ctx, afi, vpn, data)
 
 
@@ -155,18 +166,22 @@ def decode_obligations(ctx, afi, vpn, data, extra_tags=()):
     if verdict != 'rule':
         ctx.cover(verdict)
         end = want[1]
+        before = want[2] if len(want) > 2 else ()
+        # a prefix with an offset read before the fault: ExaBGP takes ceil(length/8) pattern octets instead of ceil((length-offset)/8)
+        # (finding ipv6-offset), so what it reads after that prefix is not what the RFC decoder reads
+        otag = ':ipv6-offset' if any(c[0] == 'prefix6' and not bool(c[3] == 0) for c in before) else ''
         if verdict == 'out-of-order':
             return (verdict, got)  # malformed per RFC 8955 4.2, outside the negative clause of the property: census only
         if verdict == 'bad-prefix-length' and afi == V6 and got == 'rule':
             # IPv6 offset >= length: census only (see OUTSIDE); a length above 128 never gets here (CIDR refuses it)
             ctx.cover('v6-offset-beyond-length-accepted')
             return (verdict, got)
-        ctx.check('malformed-not-delivered', got in ('invalid', 'notify'), sig='C16:decode:%s:%s-delivered-as-rule' % (fam, verdict),
+        ctx.check('malformed-not-delivered', got in ('invalid', 'notify'), sig='C16:decode:%s:%s-delivered-as-rule%s' % (fam, verdict, otag),
                   info={'oracle': verdict, 'got': got, 'rule': str(shape(exa_components(nlri, afi))) if got == 'rule' else None})
         if got == 'invalid':
             ctx.cover('invalid')
             if end is not None:
-                ctx.check('left-over', sx_eq(B(ctx, left), data[end:]), sig='C16:decode:%s:left-over-after-invalid' % fam)
+                ctx.check('left-over', sx_eq(B(ctx, left), data[end:]), sig='C16:decode:%s:left-over-after-invalid%s' % (fam, otag))
         if got == 'notify':
             ctx.cover('notify')
         return (verdict, got)
@@ -272,8 +287,13 @@ def port_nlri(ctx, nops, nsym, two_byte=True):
     return items
 
 
-def h_decode_big(ctx, nops, extra_one_byte, nsym=3):
+def big_sizes(th):
+    return ((79, 0), (79, 1), (80, 1), (84, 1), (85, 0), (85, 1), (1364, 0), (1364, 1)) + (((78, 1), (86, 0), (1363, 1), (700, 0)) if th else ())
+
+
+def h_decode_big(ctx, sizes, nsym=3):
     """NLRI of 1 + 3*nops (+2) octets: around the 240 and 256 and 4095 boundaries of the length field."""
+    nops, extra_one_byte = ctx.pick('size', sizes)
     body = port_nlri(ctx, nops, nsym)
     if extra_one_byte:
         # one more one-octet operation in front of the last: sizes that are not 1 mod 3
@@ -318,7 +338,8 @@ def build_component(ctx, flow, afi, idx, item, intended, tags, zero_padding=True
         klass = PREFIX_CLASS[(afi, t)]
         if afi == V4:
             addr = ctx.bytes('a%d' % idx, 4)
-            mask = ctx.int('m%d' % idx, 0, 32)
+            lo, hi = item[1] if len(item) > 1 else (0, 32)
+            mask = ctx.int('m%d' % idx, lo, hi)
             flow.add(klass.make_prefix4(addr, mask))
             intended.append(('prefix4', t, mask, addr))
         else:
@@ -336,6 +357,8 @@ def build_component(ctx, flow, afi, idx, item, intended, tags, zero_padding=True
         return
     klass, vclass, t, kind, vmax = COMP[name]
     nops = item[1]
+    if len(item) > 2:
+        vmax = item[2]
     ops = []
     for j in range(nops):
         a = 0 if j == 0 else ctx.int('and%d.%d' % (idx, j), 0, 1)   # text cannot put '&' in front of the first term
@@ -346,7 +369,7 @@ def build_component(ctx, flow, afi, idx, item, intended, tags, zero_padding=True
     intended.append(('ops', t, ops))
 
 
-def encode_obligations(ctx, afi, vpn, flow, intended, tags, rd=None):
+def encode_obligations(ctx, afi, vpn, flow, intended, tags, rd=None, pad_at=None):
     fam = ('v4' if afi == V4 else 'v6') + ('-vpn' if vpn else '')
     tag = (':' + '+'.join(sorted(set(tags)))) if tags else ''
     try:
@@ -365,7 +388,18 @@ def encode_obligations(ctx, afi, vpn, flow, intended, tags, rd=None):
     ok = ctx.check('encodable', wire is not None, sig='C16:encode:%s:refused:len-%d' % (fam, n - (1 if n < 241 else 2)) if n > 4000 else 'C16:encode:%s:refused%s' % (fam, tag))
     if not ok:
         return 'refused-encodable'
+    if pad_at is not None:
+        # encode/v6/padding: the operator wrote address bits beyond the prefix length; RFC 8956 3.1: padding MUST be 0
+        k, free = pad_at
+        ok = ctx.check('wire-but-padding', s_and(len(wire) == len(want), sx_eq(wire[:k], want[:k]), sx_eq(wire[k + 1:], want[k + 1:]),
+                                                 sx_eq(wire[k] - wire[k] % 2 ** free, want[k])), sig='C16:encode:%s:wire%s' % (fam, tag), info={'wire': wire, 'want': want})
+        ctx.check('padding-zero', sx_eq(wire[k] % 2 ** free, 0), sig='C16:encode:v6:prefix-padding-not-zero', info={'wire': wire, 'want': want})
+        return 'padding'
     ctx.check('wire', sx_eq(wire, want), sig='C16:encode:%s:wire%s' % (fam, tag), info={'wire': wire, 'want': want})
+    if 'ipv6-offset' in tags:
+        # the pattern of a prefix with an offset has a different size in ExaBGP (see finding): reading those octets back
+        # with the reference decoder only enumerates garbage; the octet-for-octet obligation above is the whole claim here
+        return n
     # independent reading of the real octets by the reference decoder
     back = O.flow_decode(wire, afi, bool, vpn=vpn)
     ok = ctx.check('rfc-decodable', back[0] == 'rule', sig='C16:encode:%s:not-rfc-decodable%s' % (fam, tag), info={'verdict': back[0], 'wire': wire})
@@ -417,6 +451,20 @@ def h_encode(ctx, afi, spec, vpn=False, presence=False, zero_padding=True):
     return (types, r)
 
 
+def h_encode_padding(ctx):
+    """IPv6 destination written with arbitrary bits beyond the prefix length (e.g. 2001:db8::1/61), after a higher type."""
+    flow = Flow.make_flow(AFI.ipv6, SAFI.flow_ip)
+    addr = ctx.bytes('a', 16)
+    mask = ctx.pick('mask', (61, 9, 127))
+    v = ctx.int('v', 0, 255)
+    flow.add(FlowNextHeader(NumericOperator.EQ, Protocol(v)))
+    flow.add(Flow6Destination.make_prefix6(addr, mask, 0))
+    ctx.cover('unsorted-input')
+    ctx.cover('prefix')
+    intended = [('ops', 3, [(0, 1, v)]), ('prefix6', 1, mask, 0, addr)]
+    return encode_obligations(ctx, V6, False, flow, intended, [], pad_at=(1 + 3 + (mask + 7) // 8 - 1, 8 - mask % 8))
+
+
 def h_encode_len(ctx, nfixed, nfree):
     """destination-port with nfixed two-octet values (symbolic, 256..65535) and nfree values over the full range:
     the size is 1 + 3*nfixed + (2|3)*nfree, a solver branch per free value."""
@@ -460,8 +508,7 @@ def h_text(ctx, afi, kind, nops):
     """'<component> [ <op><value>&<op><value> <op><value> ] <prefix>' through the real flow route parser.
     Independent picks: spelling and value of the first term, value and connective of the others; the component, the
     other spellings, bracket form and the prefix rotate with them so that every alternative of each is reached."""
-    from exabgp.configuration.core.parser import Tokeniser
-    from exabgp.configuration.flow import route
+    Tokeniser, route = flow_route_parser()
     tags = []
     spells = NUM_SPELL if kind == 'numeric' else BIN_SPELL
     i0 = ctx.choice('spell0', len(spells))
@@ -519,8 +566,7 @@ def h_text(ctx, afi, kind, nops):
 
 def h_text_actions(ctx):
     """'then' side of a flow route: text -> extended community octets (RFC 8955 section 7)."""
-    from exabgp.configuration.core.parser import Tokeniser
-    from exabgp.configuration.flow import route
+    Tokeniser, route = flow_route_parser()
     cases = (
         ('discard', O.action_traffic_rate_bytes(0, _struct.pack('!f', 0.0))),
         ('rate-limit 9600', O.action_traffic_rate_bytes(0, _struct.pack('!f', 9600.0))),
@@ -622,10 +668,12 @@ SUBSET_V6 = {
     'lo': (('source-port', 1), ('destination-port', 1), ('port', 1), ('next-header', 1), ('source', ((32, 0),)), ('destination', ((61, 0),))),
     'hi': (('flow-label', 1), ('fragment', 1), ('traffic-class', 1), ('packet-length', 1), ('tcp-flags', 1), ('icmp-code', 1), ('icmp-type', 1)),
 }
-ALL_V4 = (('fragment', 1), ('source',), ('dscp', 1), ('packet-length', 1), ('destination',), ('tcp-flags', 1), ('icmp-code', 1), ('icmp-type', 1),
-          ('source-port', 1), ('destination-port', 1), ('port', 1), ('protocol', 1))
-ALL_V6 = (('flow-label', 1), ('fragment', 1), ('source', ((32, 0),)), ('traffic-class', 1), ('packet-length', 1), ('destination', ((61, 0),)), ('tcp-flags', 1),
-          ('icmp-code', 1), ('icmp-type', 1), ('source-port', 1), ('destination-port', 1), ('port', 1), ('next-header', 1))
+# every subset of all the types of a family at once (thorough): one value width per component keeps it at 2^12 / 2^13 paths,
+# the width switch of each component is the business of the ENC_* and SUBSET_* units
+ALL_V4 = (('fragment', 1), ('source', (17, 24)), ('dscp', 1), ('packet-length', 1, 255), ('destination', (25, 32)), ('tcp-flags', 1, 255), ('icmp-code', 1), ('icmp-type', 1),
+          ('source-port', 1, 255), ('destination-port', 1, 255), ('port', 1, 255), ('protocol', 1))
+ALL_V6 = (('flow-label', 1, 255), ('fragment', 1), ('source', ((32, 0),)), ('traffic-class', 1), ('packet-length', 1, 255), ('destination', ((61, 0),)), ('tcp-flags', 1, 255),
+          ('icmp-code', 1), ('icmp-type', 1), ('source-port', 1, 255), ('destination-port', 1, 255), ('port', 1, 255), ('next-header', 1))
 
 
 def one_byte(spec):
@@ -644,31 +692,37 @@ def units(tier):
                            weight=4 ** L, max_seconds=T, max_paths=200000))
         for L in ((7, 8) if th else (6,)):
             us.append(Unit('decode/%s/exact-L%d' % (name, L), lambda ctx, a=afi, L=L: h_decode(ctx, a, False, L, exact=True),
-                           must_cover=('decoded-rule', 'invalid', 'undefined-component', 'truncated', 'missing-eol', 'canonical-reencoded', 'width-1', 'width-2', 'width-4', 'prefix'),
+                           must_cover=('decoded-rule', 'invalid', 'undefined-component', 'truncated', 'missing-eol', 'canonical-reencoded', 'width-1', 'prefix') +
+                           {6: (), 7: ('width-2', 'width-4'), 8: ('width-2',)}[L],
                            weight=4 ** L, max_seconds=T, max_paths=400000))
         us.append(Unit('decode/vpn%s/short' % name[1], lambda ctx, a=afi: h_decode(ctx, a, True, 5), must_cover=('truncated-rd', 'bad-length'), weight=50))
         for k in ((3, 4, 5) if th else (3, 4)):
             us.append(Unit('decode/vpn%s/rd-L%d' % (name[1], 9 + k), lambda ctx, a=afi, k=k: h_decode(ctx, a, True, 9 + k, min_len=8),
                            must_cover=('decoded-rule', 'invalid', 'undefined-component', 'bad-length', 'canonical-reencoded', 'width-1'), weight=4 ** (k + 1), max_seconds=T))
     # NLRI sizes: 1 + 3*nops (+2)
-    for nops, extra in ((79, 0), (79, 1), (80, 1), (84, 1), (85, 0), (85, 1), (1364, 0), (1364, 1)) + (((86, 0), (1363, 1)) if th else ()):
-        n = 1 + 3 * nops + (2 if extra else 0)
-        us.append(Unit('decode/big/len-%d' % n, lambda ctx, nops=nops, extra=extra: h_decode_big(ctx, nops, extra), must_cover=('len-%d' % n,), weight=nops))
+    sizes = big_sizes(th)
+    us.append(Unit('decode/big/lengths', lambda ctx, sizes=sizes: h_decode_big(ctx, sizes),
+                   must_cover=tuple('len-%d' % (1 + 3 * nops + (2 if extra else 0)) for nops, extra in sizes), weight=3000))
+    # one operator component, every operator octet / value width / end-of-list position in 5 octets
+    us.append(Unit('decode/v4/port-L7', lambda ctx: h_decode(ctx, V4, False, 7, exact=True, first_type=5),
+                   must_cover=('decoded-rule', 'invalid', 'truncated', 'missing-eol', 'canonical-reencoded', 'width-1', 'width-2', 'width-4'), weight=3000, max_seconds=T))
+    us.append(Unit('decode/v6/label-L7', lambda ctx: h_decode(ctx, V6, False, 7, exact=True, first_type=13),
+                   must_cover=('decoded-rule', 'invalid', 'truncated', 'missing-eol', 'canonical-reencoded', 'width-1', 'width-2', 'width-4'), weight=3000, max_seconds=T))
+    us.append(Unit('decode/v4/port-w8', lambda ctx: h_decode(ctx, V4, False, 11, exact=True, first_type=5, first_width8=True), must_cover=('decoded-rule', 'width-8'), weight=100))
     # encode
     for name, spec in ENC_V4.items():
         us.append(Unit('encode/v4/%s' % name, lambda ctx, spec=spec: h_encode(ctx, V4, spec), must_cover=('unsorted-input', 'width-1'), weight=300, max_seconds=T))
     for name, spec in ENC_V6.items():
         us.append(Unit('encode/v6/%s' % name, lambda ctx, spec=spec: h_encode(ctx, V6, spec), must_cover=('unsorted-input', 'width-1'), weight=300, max_seconds=T))
-    us.append(Unit('encode/v6/padding', lambda ctx: h_encode(ctx, V6, (('next-header', 1), ('destination', ((61, 0), (9, 0)))), zero_padding=False),
-                   must_cover=('unsorted-input', 'prefix'), weight=20))
+    us.append(Unit('encode/v6/padding', h_encode_padding, must_cover=('unsorted-input', 'prefix'), weight=20))
     us.append(Unit('encode/vpn4/rd-ports', lambda ctx: h_encode(ctx, V4, (('destination-port', 2), ('destination',)), vpn=True), must_cover=('unsorted-input', 'width-2', 'prefix'), weight=100))
     us.append(Unit('encode/vpn6/rd-label', lambda ctx: h_encode(ctx, V6, (('flow-label', 1), ('source', ((32, 0), (128, 0)))), vpn=True), must_cover=('unsorted-input', 'width-4', 'prefix'), weight=100))
     if th:
-        us.append(Unit('encode/v4/subset-all', lambda ctx: h_encode(ctx, V4, ALL_V4, presence=True), must_cover=('unsorted-input', 'width-1', 'width-2', 'prefix'),
+        us.append(Unit('encode/v4/subset-all', lambda ctx: h_encode(ctx, V4, ALL_V4, presence=True), must_cover=('unsorted-input', 'width-1', 'prefix'),
                        weight=20000, max_seconds=3000, max_paths=400000))
-        us.append(Unit('encode/v6/subset-all', lambda ctx: h_encode(ctx, V6, ALL_V6, presence=True), must_cover=('unsorted-input', 'width-1', 'width-4', 'prefix'),
+        us.append(Unit('encode/v6/subset-all', lambda ctx: h_encode(ctx, V6, ALL_V6, presence=True), must_cover=('unsorted-input', 'width-1', 'prefix'),
                        weight=40000, max_seconds=3000, max_paths=400000))
-    else:
+    if True:
         for name, spec in SUBSET_V4.items():
             us.append(Unit('encode/v4/subset-%s' % name, lambda ctx, spec=spec: h_encode(ctx, V4, spec, presence=True), must_cover=('unsorted-input', 'width-1'), weight=600, max_seconds=T))
         for name, spec in SUBSET_V6.items():
